@@ -98,6 +98,11 @@ class KGFnWrapper:
                 return sym
         return None
 
+    def _as_klong_list(self, x):
+        # a Python list becomes a Klong list: np.asarray would turn [1, "a"] into strings
+        backend = getattr(self.klong, '_backend', None)
+        return backend.kg_asarray(x) if backend is not None else np.asarray(x)
+
     def __call__(self, *args, **kwargs):
         # Try to resolve dynamically first if we have a symbol
         if self._sym is not None:
@@ -107,7 +112,7 @@ class KGFnWrapper:
                     # Use the current definition
                     if len(args) != current.arity:
                         raise RuntimeError(f"Klong function called with {len(args)} but expected {current.arity}")
-                    fn_args = [np.asarray(x) if isinstance(x, list) else x for x in args]
+                    fn_args = [self._as_klong_list(x) if isinstance(x, list) else x for x in args]
                     return self.klong.call(KGCall(current.a, [*fn_args], current.arity))
             except KeyError:
                 # Symbol was deleted, fall through to original function
@@ -115,7 +120,7 @@ class KGFnWrapper:
 
         if len(args) != self.fn.arity:
             raise RuntimeError(f"Klong function called with {len(args)} but expected {self.fn.arity}")
-        fn_args = [np.asarray(x) if isinstance(x, list) else x for x in args]
+        fn_args = [self._as_klong_list(x) if isinstance(x, list) else x for x in args]
         return self.klong.call(KGCall(self.fn.a, [*fn_args], self.fn.arity))
 
 
